@@ -473,6 +473,26 @@ where
     name.to_string()
 }
 
+#[cfg(crux_verif)]
+pub(super) fn verif_field_format(field: &ItemNode) -> Option<Format> {
+    make_format(field, std::slice::from_ref(field)).map(|f| f.value)
+}
+
+#[cfg(crux_verif)]
+pub(super) fn verif_make_range(field: &ItemNode) -> Option<ContainerFormat> {
+    make_range(field)
+}
+
+#[cfg(crux_verif)]
+pub(super) fn verif_field_name(name: &str, field: &ItemNode, struct_: &ItemNode) -> String {
+    field_name(name, &field.item.attrs, &struct_.item.attrs)
+}
+
+#[cfg(crux_verif)]
+pub(super) fn verif_variant_name(name: &str, variant: &ItemNode, enum_: &ItemNode) -> String {
+    variant_name(name, &variant.item.attrs, &enum_.item.attrs)
+}
+
 #[cfg(test)]
 mod tests {
     use rstest::rstest;
